@@ -43,6 +43,14 @@ impl Driver {
                     SuccessorType::FallThrough => {
                         let locations = location.forward()?;
                         if locations.len() == 1 {
+                            // a single outgoing edge may still be guarded
+                            if let Some(condition) =
+                                locations[0].edge().and_then(|edge| edge.condition())
+                            {
+                                if !successor.state().symbolize_and_eval(condition)?.is_one() {
+                                    return Err(Error::ExecutorNoValidLocation);
+                                }
+                            }
                             Ok(Driver::new(
                                 self.program.clone(),
                                 locations[0].clone().into(),
@@ -120,6 +128,12 @@ impl Driver {
             il::RefFunctionLocation::EmptyBlock(_) => {
                 let locations = location.forward()?;
                 if locations.len() == 1 {
+                    // a single outgoing edge may still be guarded
+                    if let Some(condition) = locations[0].edge().and_then(|edge| edge.condition()) {
+                        if !self.state.symbolize_and_eval(condition)?.is_one() {
+                            return Err(Error::ExecutorNoValidLocation);
+                        }
+                    }
                     return Ok(Driver::new(
                         self.program.clone(),
                         locations[0].clone().into(),
